@@ -25,7 +25,7 @@ func CmpDoc() DocOpts {
 	return o
 }
 
-var cmpNumLits = []string{"0", "1", "2", "10", "1.5", "3", "1000", "12"}
+var cmpNumLits = []string{"0", "1", "2", "10", "1.5", "3", "1000", "12", "18446744073709551616", "20000000000000000000", "9007199254740993"}
 var cmpStrLits = []string{"1", "2", "t", "10", "x y", "", "-3", "1e3", " 12 ", "12", "NaN", "it's"}
 
 // NumOperand draws a number-typed operand (incl. NaN and the infinities).
@@ -192,8 +192,11 @@ func NumDoc() DocOpts {
 	return o
 }
 
-var arithLits = []string{"0", "1", "2", "3", "7", "10", "007", "1.", ".5", "12.50", "0.1", "0.2", "1234567.125", "0.12345678901234567", "99999", "1000000", "0.0001", "0.00001", "3.0", ".125", ".75", ".0625", "0.333", "10.0625"}
-var intLits = []string{"0", "1", "2", "3", "5", "7", "10", "12", "1000000007", "4294967296", "9007199254740993", "255"}
+var arithLits = []string{"0", "1", "2", "3", "7", "10", "007", "1.", ".5", "12.50", "0.1", "0.2", "1234567.125", "0.12345678901234567", "99999", "1000000", "0.0001", "0.00001", "3.0", ".125", ".75", ".0625", "0.333", "10.0625",
+	"18446744073709551616", "99999999999999999999", "123456789012345678901", "0.1234567890123456789012345678901", "18446744073709551616.5"}
+var intLits = []string{"0", "1", "2", "3", "5", "7", "10", "12", "1000000007", "4294967296", "9007199254740993", "255",
+	// 19, 20, 21 and 25 digits: around 2^63, 2^64 and beyond every integer type
+	"9223372036854775808", "18446744073709551615", "18446744073709551616", "99999999999999999999", "100000000000000000000", "1234567890123456789012345"}
 var posIntLits = []string{"1", "2", "3", "5", "7", "10", "256", "65536", "1000000007"}
 
 func allNumeric(ns xref.NodeSet) bool {
@@ -312,7 +315,9 @@ func StrDoc() DocOpts {
 	return o
 }
 
-var strPool = []string{"", " ", "a", "ab", "abc", "a b", "  a  b ", "\t", "a\nb", "aab", "12", "-", "a-b", "AbC", "b", "c", "abcabc", "   ", "it's", "a\"b", "'", "\"", "a\\", "\\"}
+var strPool = []string{"", " ", "a", "ab", "abc", "a b", "  a  b ", "\t", "a\nb", "aab", "12", "-", "a-b", "AbC", "b", "c", "abcabc", "   ", "it's", "a\"b", "'", "\"", "a\\", "\\",
+	// lengths around 16, 32, 64 and 256 bytes
+	"abcdefghijklmnop", "abcdefghijklmnopq", strings.Repeat("ab ", 11), strings.Repeat("x", 64) + "y", strings.Repeat("abc-", 64) + "z"}
 
 // SubstrNum draws a start/length argument: -3 .. 9 in steps of 0.5.
 func (g *G) SubstrNum() xast.Expr {
@@ -344,7 +349,7 @@ func (g *G) StrArg(ctx *xdoc.Node, depth int, nodeOK bool) xast.Expr {
 func (g *G) StrExpr(ctx *xdoc.Node, depth int) xast.Expr {
 	switch g.intn(10, "strexpr") {
 	case 0:
-		n := 2 + g.intn(3, "nconcat")
+		n := 1 + g.CountOf(3, "nconcat")
 		c := &xast.Call{Name: "concat"}
 		for i := 0; i < n; i++ {
 			c.Args = append(c.Args, g.StrArg(ctx, depth, true))
